@@ -180,7 +180,7 @@ theorem nocr_fileLines (f : File) (hwf : f.wf = true) : ∀ l ∈ fileLines f, N
     · exact nocr_posLine r (hwf.1.2 b hb r hr)
     · have := hwf.1.2 b hb r hr
       simp only [PosRec.wf, Bool.and_eq_true, List.all_eq_true] at this
-      exact nocr_extraLine x (this.2 x hx)
+      exact nocr_extraLine x (okExtra_okText (this.2 x hx))
   · intro c hc; revert hc; revert c; decide
 
 /-- lines without a carriage return, each followed by `'\n'`, give a text without a carriage return -/
